@@ -255,7 +255,11 @@ int expr_tailrec(unsigned int syn_level, symtab * stab,
     break;
     case EXPR_IFLET:
         expr_tailrec(syn_level, stab, value->iflet_value->expr_value, TAILREC_OP_SKIP);
-        expr_tailrec(syn_level, stab, value->iflet_value->then_value, op);
+        expr_tailrec(syn_level,
+                     (value->iflet_value->type == IFLET_TYPE_RECORD &&
+                      value->iflet_value->guard_record != NULL &&
+                      value->iflet_value->guard_record->stab != NULL) ? value->iflet_value->guard_record->stab : stab,
+                     value->iflet_value->then_value, op);
         expr_tailrec(syn_level, stab, value->iflet_value->else_value, op);
     break;
     case EXPR_MATCH:
